@@ -24,47 +24,54 @@ VARIABLES fst,    \* follower: "idle" | "queried" | "streaming" | "ended"
           got,    \* everything the leader's handler passed on
           ferr,   \* the follower's query ended with an error
           lerr,   \* the leader's handler returned an error
-          sql     \* the query text: as sent, as received
-vars == <<fst, lst, chan, sent, got, ferr, lerr, sql>>
+          sql,    \* the query text: as sent, as received
+          lstop   \* the leader's consumer has said that it has enough (LIMIT)
+vars == <<fst, lst, chan, sent, got, ferr, lerr, sql, lstop>>
 
 Msg(k, d) == [kind |-> k, d |-> d]
 
 Init == /\ fst = "idle" /\ lst = "idle" /\ chan = <<>> /\ sent = <<>> /\ got = <<>>
-        /\ ferr = FALSE /\ lerr = FALSE /\ sql = [sent |-> "", rcvd |-> ""]
+        /\ ferr = FALSE /\ lerr = FALSE /\ sql = [sent |-> "", rcvd |-> ""] /\ lstop = FALSE
 
 LQuery(q) == /\ lst = "idle" /\ lst' = "asked" /\ sql' = [sql EXCEPT !.sent = q]
-             /\ UNCHANGED <<fst, chan, sent, got, ferr, lerr>>
+             /\ UNCHANGED <<fst, chan, sent, got, ferr, lerr, lstop>>
 FQuery(q) == /\ fst = "idle" /\ lst = "asked" /\ q = sql.sent       \* the text arrives unchanged
              /\ fst' = "queried" /\ sql' = [sql EXCEPT !.rcvd = q]
-             /\ UNCHANGED <<lst, chan, sent, got, ferr, lerr>>
+             /\ UNCHANGED <<lst, chan, sent, got, ferr, lerr, lstop>>
 Send(m) == chan' = Append(chan, m) /\ sent' = Append(sent, m)
 FFields(d) == /\ fst = "queried" /\ fst' = "streaming" /\ Send(Msg("fields", d))
-              /\ UNCHANGED <<lst, got, ferr, lerr, sql>>
+              /\ UNCHANGED <<lst, got, ferr, lerr, sql, lstop>>
 FRow(d) == /\ fst = "streaming" /\ Len(sent) <= MaxRows /\ Send(Msg("row", d))
-           /\ UNCHANGED <<fst, lst, got, ferr, lerr, sql>>
+           /\ UNCHANGED <<fst, lst, got, ferr, lerr, sql, lstop>>
 \* the follower's query function returns: one closing message, with the error if any
 FEnd(e) == /\ fst \in {"queried", "streaming"} /\ fst' = "ended" /\ ferr' = e
            /\ Send(Msg("end", IF e THEN "error" ELSE ""))
-           /\ UNCHANGED <<lst, got, lerr, sql>>
+           /\ UNCHANGED <<lst, got, lerr, sql, lstop>>
 \* the leader's handler takes the next message off the channel
 Recv(k) == chan # <<>> /\ Head(chan).kind = k /\ chan' = Tail(chan) /\ got' = Append(got, Head(chan))
 LFields == /\ lst = "asked" /\ Recv("fields") /\ lst' = "gotfields"
-           /\ UNCHANGED <<fst, sent, ferr, lerr, sql>>
+           /\ UNCHANGED <<fst, sent, ferr, lerr, sql, lstop>>
 LRow == /\ lst = "gotfields" /\ Recv("row")
-        /\ UNCHANGED <<fst, lst, sent, ferr, lerr, sql>>
+        /\ UNCHANGED <<fst, lst, sent, ferr, lerr, sql, lstop>>
 LEnd == /\ lst \in {"asked", "gotfields"} /\ Recv("end") /\ lst' = "ended"
         /\ lerr' = (Head(chan).d = "error")
-        /\ UNCHANGED <<fst, sent, ferr, sql>>
+        /\ UNCHANGED <<fst, sent, ferr, sql, lstop>>
 
 \* the connection to the follower is gone (a registered handler whose follower has
 \* given up waiting): the handler returns an error of its own
 LFail == /\ lst \in {"asked", "gotfields"} /\ lst' = "ended" /\ lerr' = TRUE
+         /\ UNCHANGED <<fst, chan, sent, got, ferr, sql, lstop>>
+
+\* the consumer has what it wanted (LIMIT): the handler returns without reading the rest
+ConsumerStops == /\ lst = "gotfields" /\ got # <<>> /\ ~lstop /\ lstop' = TRUE
+                 /\ UNCHANGED <<fst, lst, chan, sent, got, ferr, lerr, sql>>
+LStop == /\ lst = "gotfields" /\ lstop /\ lst' = "ended" /\ lerr' = FALSE /\ lstop' = lstop
          /\ UNCHANGED <<fst, chan, sent, got, ferr, sql>>
 
 Next == \/ \E q \in Digests : LQuery(q) \/ FQuery(q)
         \/ \E d \in Digests : FFields(d) \/ FRow(d)
         \/ \E e \in BOOLEAN : FEnd(e)
-        \/ LFields \/ LRow \/ LEnd \/ LFail
+        \/ LFields \/ LRow \/ LEnd \/ LFail \/ LStop \/ ConsumerStops
 Spec == Init /\ [][Next]_vars
 
 ----------------------------------------------------------------------------
@@ -77,6 +84,6 @@ WellFormed == \A i \in 1..Len(sent) :
                  /\ (sent[i].kind = "row" => i > 1 /\ sent[1].kind = "fields")
                  /\ (sent[i].kind = "end" => i = Len(sent))
 \* a failure of the follower is reported by the leader's handler (C13 over rpc)
-ErrorReported == lst = "ended" => (lerr \/ (~ferr /\ fst = "ended" /\ got = sent))
+ErrorReported == lst = "ended" => (lerr \/ lstop \/ (~ferr /\ fst = "ended" /\ got = sent))
 QueryIntact == fst # "idle" => sql.rcvd = sql.sent
 =============================================================================
